@@ -82,10 +82,23 @@ class StateGraph(Observer):
         self.last = {}       # (nick, incarnation) -> last published state
         self.entered = {}    # nick -> set of states ever published (any incarnation), with first global order
         self.history = {}    # nick -> [(t_us, state)] every published change
+        self.delivered = {}
         self.probes = {}
 
     def on_boot(self, sim, inst):
         self.last[(inst.nick, inst.incarnation)] = 'OFF'
+
+    def on_wire(self, sim, rec):
+        # latest state publication of each peer delivered to (and handled by) each instance, with the state the receiver
+        # held the sender in at that instant (publications of a peer that is not CHECKED / RUNNING are ignored)
+        if rec['method'] == 'supervisor.sendRemoteCommEvent' and rec.get('outcome') == 'ok' and rec.get('header') == 7 \
+                and rec.get('comm_type') == 'SupvisorsPublication' and isinstance(rec.get('body'), dict) \
+                and rec['src'] != rec['dst'] and rec.get('src'):
+            d, src = sim.instances.get(rec['dst']), sim.instances.get(rec['src'])
+            if d is not None and src is not None and d.alive and d.supvisors is not None:
+                st = d.supvisors.context.instances.get(src.identifier)
+                self.delivered[(d.nick, d.incarnation, src.nick)] = (sim.now_us, rec['body'].get('fsm_statename'),
+                                                                     st.state.name if st else None)
 
     def on_publication(self, sim, inst, ptype, body):
         from supvisors.ttypes import PublicationHeaders
@@ -134,6 +147,12 @@ class StateGraph(Observer):
                         stored = stored.name if stored is not None else None
                         true_now = hist[-1][1] if hist else None
                         stale = ':stale-view-of-master-state' if stored != true_now else ''
+                        # ... which is only that mechanism when the Master's current state never reached this Slave: a
+                        # state that WAS delivered and handled, then replaced by an older one, is something else
+                        got = self.delivered.get((inst.nick, inst.incarnation, m_nick))
+                        if stale and hist and got is not None and got[1] == true_now and got[0] >= hist[-1][0] \
+                                and got[2] in ('CHECKED', 'RUNNING'):
+                            stale = ':newer-master-state-had-been-delivered'
                         self.violate('slave-before-master', {'inst': inst.nick, 'state': new, 'master': m_nick,
                                                              'master_history': hist[-6:], 'stored_master_state': stored},
                                      'slave-before-master-in-term:%s%s%s' % (new, suffix, stale))
